@@ -361,9 +361,14 @@ class Ctx:
         if mo is not None and mo == "bad-op":
             self.faults.append({"line": line, "impl": io, "model": mo})
             return
-        if oo is not None and oo != io:
-            self.mismatch_oracle.append({"stream": stream, "line": line, "impl": io, "oracle": oo, "model": mo})
-        elif mo is not None and mo != io:
+        om = oo is not None and oo != io
+        mm = mo is not None and mo != io
+        if om:
+            # model_agrees: the implementation still deviates exactly as the model (which mirrors the
+            # code as it was when a finding was recorded) does; only then may a known finding apply
+            self.mismatch_oracle.append({"stream": stream, "line": line, "impl": io, "oracle": oo, "model": mo,
+                                         "model_agrees": not mm})
+        elif mm:
             self.mismatch_model.append({"stream": stream, "line": line, "impl": io, "oracle": oo, "model": mo})
 
 
@@ -460,7 +465,7 @@ def run_check(mod, argv):
     known_hits = {}
     for mm in sorted(ctx.mismatch_oracle, key=lambda d: (len(d["line"]), d["line"])):
         k = match_known(prop, mm["line"], known)
-        if k:
+        if k and mm.get("model_agrees", True):
             known_hits.setdefault(k["id"], (k, mm))
         else:
             violations.append((mm, "property-fails-on-implementation"))
